@@ -206,6 +206,10 @@ class CompoundQuery(qcore.Query):
 
         if len(subs) == 1:
             m = subs[0].matcher(searcher, context)
+            # This query's own boost still applies (as it does after
+            # normalize(), which folds it into the single subquery)
+            if self.boost != 1.0:
+                m = matching.WrappingMatcher(m, self.boost)
         else:
             m = self._matcher(subs, searcher, context)
         return m
@@ -395,7 +399,10 @@ class SplitOr(Or):
         if not subs:
             return matching.NullMatcher()
         elif len(subs) == 1:
-            return subs[0].matcher(searcher, context)
+            m = subs[0].matcher(searcher, context)
+            if self.boost != 1.0:
+                m = matching.WrappingMatcher(m, self.boost)
+            return m
 
         # Sort the subqueries into "small" and "big" queries based on their
         # estimated size. This works best for term queries.
